@@ -33,7 +33,10 @@ CONSTANTS
     Mode,          \* "idle" | "lit" | "closed" | "mixed" : how T is used ("mixed": loop_in_thread(T) is called while
                    \*  callers already use the idle loop - the history class of known finding D7b)
     \* @type: Bool;
-    ReCheck        \* TRUE: the locked re-check in _get_loop_lock (the code); FALSE: dropped (witness)
+    ReCheck,       \* TRUE: the locked re-check in _get_loop_lock (the code); FALSE: dropped (witness)
+    \* @type: Bool;
+    OwnStart       \* TRUE: loop_in_thread waits for a callback that only its own run_forever processes (the code since
+                   \*  repair 900444e); FALSE: it waits for loop.is_running() (before: defect D7b, witness W_D7b)
 
 VARIABLES
     \* @type: Str -> Str;
@@ -196,8 +199,8 @@ LitRun ==            \* loop.run_forever()
     /\ running' = "LIT" /\ litpc' = "running"
     /\ UNCHANGED <<pc, closed, pending, lockOf, nlocks, myLock, holder, createLock, lit, stopReq, evaluated, error>>
 
-LitReturn ==         \* the spin loop sees is_running(): loop_in_thread returns
-    /\ lit = "spinning" /\ running # None
+LitReturn ==         \* the spin loop sees its own run_forever at work (before 900444e: any is_running()): loop_in_thread returns
+    /\ lit = "spinning" /\ (IF OwnStart THEN running = "LIT" ELSE running # None)
     /\ lit' = "returned"
     /\ UNCHANGED <<pc, running, closed, pending, lockOf, nlocks, myLock, holder, createLock, litpc, stopReq, evaluated, error>>
 
